@@ -37,6 +37,14 @@ func raceMain(args []string) {
 	mismatches := 0
 	total := 0
 	var samples []any
+	// executions that never come back (a lock left held on some path) would keep a round waiting for ever: when the whole
+	// run has not finished in time, that IS the result — reported, and the process ends
+	go func() {
+		limit := 4*time.Minute + time.Duration(*rounds)*200*time.Millisecond
+		time.Sleep(limit)
+		fmt.Printf("RACE-RESULT {\"executions\":1,\"mismatches\":1,\"samples\":[\"mode %s: the run did not finish within %v: some executions are blocked (deadlock / lock not released)\"]}\n", *mode, limit)
+		os.Exit(0)
+	}()
 	if *mode == "reload" {
 		for round := 0; round < *rounds; round++ {
 			var mu sync.Mutex
